@@ -55,11 +55,13 @@ gen_corpus() {
   gen_pkg vtus vt U-simple false false false false -generate_simple_unions -- $VT &
   gen_pkg vtuw vt U-wrapper false true false false -- $VT &
   # vtrs: a second REVISION of module vt (one more enum value in front of typedef color, one more identity sorting
-  # first), so that two packages in one process have identically named enum types with different numbering:
+  # first, and the string member of the union typedef mixed is restricted to 4 instead of 8 characters), so that two
+  # packages in one process have identically named enum types with different numbering and identically named typedefs
+  # with different restrictions:
   # the input for any process-wide cache keyed by a type NAME instead of the type. schemas/rev/ is derived from
   # schemas/vt.yang by the sed below and committed (the reference decoders read it); a stale copy is an error.
   mkdir -p "$WORK/rev"
-  sed -e 's/enum RED;/enum AMBER; enum RED;/' -e 's/^  identity ID-A /  identity ID-0 { base BASE; }\n  identity ID-A /' "$VERIF/schemas/vt.yang" > "$WORK/rev/vt.yang"
+  sed -e 's/enum RED;/enum AMBER; enum RED;/' -e 's/^  identity ID-A /  identity ID-0 { base BASE; }\n  identity ID-A /' -e 's/type string { length "1..8"; }/type string { length "1..4"; }/' "$VERIF/schemas/vt.yang" > "$WORK/rev/vt.yang"
   cmp -s "$WORK/rev/vt.yang" "$VERIF/schemas/rev/vt.yang" && cmp -s "$VERIF/schemas/vt-aug.yang" "$VERIF/schemas/rev/vt-aug.yang" || die "schemas/rev is stale: re-derive it from schemas/vt.yang (see scripts/lib.sh)"
   grep -q "enum AMBER" "$VERIF/schemas/rev/vt.yang" && grep -q "identity ID-0" "$VERIF/schemas/rev/vt.yang" || die "schemas/rev/vt.yang is not a revision of vt"
   REGFN=RegisterAux gen_pkg vtrs vtrev U-simple false false false false -generate_simple_unions -- "$VERIF/schemas/rev/vt.yang" "$VERIF/schemas/rev/vt-aug.yang" &
